@@ -567,6 +567,7 @@ def run(tier):
         f = meta[i][0]
         tt, dt, _ = impl_texts(f)
         chk.note("model/implementation disagree on (%s): %s\n   tree: %s\n   dag: %s" % (meta[i][1], f.serialize()[:200], tt[:300], dt[:300]))
+    bad_examples = [(meta[i][0].serialize()[:200], impl_texts(meta[i][0])[1][:300]) for i in bad[:2]]
     for _ in range(envs_pushed + len(DIRECTED)):
         try:
             pop_env()
@@ -578,7 +579,7 @@ def run(tier):
             what.append("proof obligations no longer check: " + lib.proof_failure_summary(chk))
         if bad or errs:
             what.append("correspondence models/SmtPrinter.v, SmtScript.v <-> pysmt/smtlib/printers.py, script.py differs on %d cases, e.g. %s"
-                        % (len(bad) + len(errs), [(meta[i][0].serialize()[:200], impl_texts(meta[i][0])[1][:300]) for i in bad[:2]]))
+                        % (len(bad) + len(errs), bad_examples))
         chk.violation({"kind": "obligation", "theorem_or_correspondence": what}, found_input=False)
     return chk.finish(TRUSTED, ASSUME,
                       "random well-typed formulas of all theories with sharing (gen/formulas.py) + directed generators: names needing "
